@@ -215,6 +215,74 @@ def _use_scope(scope, p, raise_):
             raise KeyError("body")
 
 
+@unit("plumbing.Registry", props=["C05", "C09", "C03", "C19"], functions=[(RG, "Registry.add"), (RG, "Registry.source"), (RG, "Registry.get"), (RG, "Registry.__contains__"),
+                                                                        (RG, "Registry.__getitem__"), (RG, "Registry.keys"), (RG, "Registry.__len__")],
+      assumptions=["the real RegistryValue class is executed natively; dict semantics (T1)"], min_obligations=8, kind="concrete-parametric")
+def registry_unit(ctx):
+    """what the stale check and the rewrite assume about the registry: add / source record exactly (store, is_source, the caller's stack
+    frame) under the node, source creates ONE argument-less call of the placeholder function through plan._call with that frame, lookups
+    answer from that mapping and nothing else"""
+    import importlib
+
+    from ujvc.z3env import ensure_repo_first
+
+    ensure_repo_first()
+    reg_mod = importlib.import_module("uberjob._registry")
+    b = importlib.import_module("uberjob._builtins")
+    cls = real_classes()
+    SF = object()
+    log = []
+
+    class VS:
+        pass
+
+    class _validation:
+        @staticmethod
+        def assert_is_instance(v, name, t, optional=False):
+            log.append(("assert_is_instance", name))
+
+    class Plan:
+        def _call(self, sf, fn, *a, **k):
+            log.append(("_call", sf, fn, a, k))
+            return cls["Call"](fn, stack_frame=sf)
+
+    env = {"validation": _validation, "get_stack_frame": lambda *a: SF, "RegistryValue": reg_mod.RegistryValue, "Node": cls["Node"], "ValueStore": VS, "Plan": Plan,
+           "source": b.source}
+
+    class R:
+        def __init__(self):
+            self.mapping = {}
+
+    for name in ("add", "source", "get", "__contains__", "__getitem__", "keys", "__len__"):
+        e2 = dict(env)
+        setattr(R, name, get(RG, f"Registry.{name}").compile_into(e2))
+        e2["source"] = b.source      # the method ``source`` shadows the module-level placeholder of the same name: re-bind the global it refers to
+    r = R()
+    n1, st1, st2 = cls["Call"](lambda: 1), VS(), VS()
+    ctx.check("empty-registry:falsy,no-node-registered,get-is-None", bool(len(r) == 0 and n1 not in r and r.get(n1) is None))
+    r.add(n1, st1)
+    v = r.mapping.get(n1)
+    ctx.check("add:records-(store,is_source=False,the-caller's-stack-frame)-under-the-node", bool(type(v) is reg_mod.RegistryValue and v.value_store is st1 and v.is_source is False and v.stack_frame is SF and len(r.mapping) == 1),
+              props=["C05", "C19"])
+    kind, val = _catch(ctx, lambda: r.add(n1, st2))
+    ctx.check("add:a-node-cannot-be-registered-twice(the-first-entry-stays)", bool(kind == "raise" and r.mapping[n1].value_store is st1))
+    del log[:]
+    p = Plan()
+    n2 = r.source(p, st2)
+    calls = [e for e in log if e[0] == "_call"]
+    ctx.check("source:creates-ONE-argument-less-call-of-the-placeholder-through-plan._call-with-the-caller's-frame", bool(calls == [("_call", SF, b.source, (), {})] and type(n2) is cls["Call"]),
+              props=["C09", "C19"])
+    v2 = r.mapping.get(n2)
+    ctx.check("source:records-(store,is_source=True,the-same-stack-frame)-under-the-new-node", bool(v2 is not None and v2.value_store is st2 and v2.is_source is True and v2.stack_frame is SF and len(r.mapping) == 2),
+              props=["C05", "C19"])
+    ctx.check("lookups-answer-from-the-mapping(get,in,[],keys,len)", bool(r.get(n1) is st1 and r.get(n2) is st2 and n1 in r and n2 in r and r[n1] is st1 and list(r.keys()) == [n1, n2] and len(r) == 2
+                                                                      and r.get(cls["Call"](lambda: 2)) is None))
+    ctx.check("non-empty-registry-is-truthy(run-takes-the-registry-path)", bool(r))
+    kind, val = _catch(ctx, lambda: b.source())
+    ctx.check("placeholder-raises-NotTransformedError-when-called-without-the-registry", bool(kind == "raise" and type(val).__name__ == "NotTransformedError"))
+    return "ok"
+
+
 class LazyIter:
     """an iterable that records how far it was consumed (unpack must not drain an infinite iterable)"""
 
